@@ -64,6 +64,8 @@ func main() {
 	budget := flag.Int64("budget", 5000000, "instruction budget per path")
 	maxPaths := flag.Int("maxpaths", 0, "max paths per harness (0 = unlimited)")
 	out := flag.String("out", "", "result JSON file")
+	corpus := flag.String("corpus", "", "concrete mode: JSON list of input strings, run harness -fn once per input")
+	corpusOut := flag.String("corpus-out", "", "concrete mode: output JSON")
 	replay := flag.String("replay", "", "replay one path: JSON file with harness+decisions")
 	verbose := flag.Bool("v", false, "verbose")
 	flag.Parse()
@@ -100,6 +102,10 @@ func main() {
 		os.Exit(2)
 	}
 	_ = replay
+	if *corpus != "" {
+		runCorpus(prog, fns[0], *corpus, *corpusOut, *workers, *solver, *timeoutMs, *budget)
+		return
+	}
 
 	results := map[*ssa.Function]*HarnessResult{}
 	stats := map[*ssa.Function]*engine.Stats{}
@@ -256,4 +262,59 @@ func write(path string, o *Output) {
 	}
 	data, _ := json.MarshalIndent(o, "", " ")
 	os.WriteFile(path, data, 0o644)
+}
+
+type corpusResult struct {
+	Input   string   `json:"input"`
+	Status  string   `json:"status"`
+	Msg     string   `json:"msg,omitempty"`
+	Outputs []string `json:"outputs"`
+	Paths   int      `json:"paths"`
+}
+
+func runCorpus(prog *engine.Program, fn *ssa.Function, in, out string, workers int, solver string, timeoutMs int, budget int64) {
+	data, err := os.ReadFile(in)
+	if err != nil {
+		fmt.Fprintln(os.Stderr, err)
+		os.Exit(2)
+	}
+	var inputs []string
+	if err := json.Unmarshal(data, &inputs); err != nil {
+		fmt.Fprintln(os.Stderr, err)
+		os.Exit(2)
+	}
+	results := make([]corpusResult, len(inputs))
+	var mu sync.Mutex
+	next := 0
+	var wg sync.WaitGroup
+	for w := 0; w < workers; w++ {
+		wg.Add(1)
+		go func() {
+			defer wg.Done()
+			eng := engine.NewEngine(prog, solver, timeoutMs)
+			eng.Budget = budget
+			defer eng.Close()
+			for {
+				mu.Lock()
+				i := next
+				next++
+				mu.Unlock()
+				if i >= len(inputs) {
+					return
+				}
+				eng.Input = inputs[i]
+				eng.Stats = engine.NewStats()
+				res, alts := eng.RunPath(fn, nil)
+				results[i] = corpusResult{Input: inputs[i], Status: res.Status, Msg: firstLine(res.Msg), Outputs: append([]string{}, eng.Outputs...), Paths: 1 + len(alts)}
+			}
+		}()
+	}
+	wg.Wait()
+	data, _ = json.MarshalIndent(results, "", " ")
+	os.WriteFile(out, data, 0o644)
+	by := map[string]int{}
+	for _, r := range results {
+		by[r.Status]++
+	}
+	fmt.Println("corpus:", len(results), by)
 }
